@@ -847,7 +847,7 @@ class Summary(object):
 
     def assign(self, target, value, env, pc, fr, node, aug=False):
         if isinstance(target, ast.Name):
-            if isinstance(value, ast.List) and not aug:
+            if isinstance(value, ast.List) and not aug and target.id in _list_built(self._cur_frame.func):
                 lv = ListVal()
                 for e in value.elts:
                     for g, n in self.alts(e, env, pc):
@@ -978,6 +978,7 @@ class Summary(object):
         if isinstance(st, (ast.Continue, ast.Break)):
             if fr.loopctl:
                 fr.loopctl[-1].append(pc)
+            self.emit('break' if isinstance(st, ast.Break) else 'continue', fr.func.name, '', pc, st, fr)
             return False
         if isinstance(st, (ast.For, ast.AsyncFor, ast.While)):
             return self.loop(st, env, pc, fr)
@@ -1141,6 +1142,25 @@ def _mutated_locals(func):
             lists.add(n.targets[0].id)
     out -= lists
     func._gsa_mutated = out
+    return out
+
+
+def _list_built(func):
+    """locals that are lists filled in place (append / insert / extend / += [...]) or handed to a helper"""
+    cached = getattr(func, '_gsa_lists', None)
+    if cached is not None:
+        return cached
+    out = set()
+    for n in P.walk_no_nested(func):
+        if isinstance(n, ast.Call) and isinstance(n.func, ast.Attribute) and isinstance(n.func.value, ast.Name) and n.func.attr in ('append', 'insert', 'extend'):
+            out.add(n.func.value.id)
+        elif isinstance(n, ast.AugAssign) and isinstance(n.target, ast.Name):
+            out.add(n.target.id)
+        elif isinstance(n, ast.Call):
+            for a in list(n.args) + [k.value for k in n.keywords]:
+                if isinstance(a, ast.Name):
+                    out.add(a.id)
+    func._gsa_lists = out
     return out
 
 
